@@ -31,6 +31,28 @@ patches = sorted(glob.glob(os.path.join(V, 'mutants', '*.patch')))
 if sel:
     patches = [p for p in patches if any(os.path.basename(p).startswith(s) or p == s for s in sel)]
 rows = []
+_base = {}
+
+
+def groups_of(stdout):
+    out = set()
+    for ln in stdout.splitlines():
+        if ln.startswith('  site='):
+            parts = ln.split()
+            out.add((parts[0], parts[1]))
+    return out
+
+
+def base_groups(pid):
+    if pid not in _base:
+        d0 = tempfile.mkdtemp(prefix='verif-mut-base-')
+        env0 = dict(os.environ, VERIF_EVIDENCE_DIR=os.path.join(d0, 'evidence'), VERIF_REPLAY_DIR=os.path.join(d0, 'replays'), VERIF_NO_CONFIRM='1')
+        c0 = subprocess.run([os.path.join(V, 'check'), pid, '--tier', tier], cwd=V, env=env0, capture_output=True, text=True)
+        _base[pid] = groups_of(c0.stdout) if c0.returncode == 1 else set()
+        shutil.rmtree(d0, ignore_errors=True)
+    return _base[pid]
+
+
 for p in patches:
     name = os.path.basename(p)[:-6]
     pid = name.split('_')[0]
@@ -45,12 +67,14 @@ for p in patches:
         if r.returncode != 0:
             rows.append((name, 'PATCH-FAILED', r.stdout[-200:]))
             continue
-        env = dict(os.environ, VERIF_REPO=d, VERIF_EVIDENCE_DIR=os.path.join(d, 'evidence'))
+        env = dict(os.environ, VERIF_REPO=d, VERIF_EVIDENCE_DIR=os.path.join(d, 'evidence'), VERIF_REPLAY_DIR=os.path.join(d, 'replays'))
         c = subprocess.run([os.path.join(V, 'check'), pid, '--tier', tier], cwd=V, env=env, capture_output=True, text=True)
         viol = [ln for ln in c.stdout.splitlines() if ln.startswith('VIOLATION')]
         detail = [ln for ln in c.stdout.splitlines() if ln.startswith('  site=')]
-        status = 'CAUGHT' if c.returncode == 1 and viol else f'MISSED(exit {c.returncode})'
-        extra = detail[0][:160] if detail else c.stdout[-200:].replace('\n', ' | ')
+        new = groups_of(c.stdout) - base_groups(pid)
+        status = 'CAUGHT' if c.returncode == 1 and viol and new else f'MISSED(exit {c.returncode})'
+        detail = [ln for ln in detail if tuple(ln.split()[:2]) in new] or detail
+        extra = (f'[{len(new)} new group(s)] ' + detail[0][:150]) if detail else c.stdout[-200:].replace('\n', ' | ')
         if baseline:
             b = subprocess.run([os.path.join(V, 'tools', 'baseline.py'), d], capture_output=True, text=True)
             extra = ('suite:' + b.stdout.splitlines()[0] if b.stdout else 'suite:?') + ' ;; ' + extra
